@@ -236,7 +236,7 @@ PROPS = {
                  quick=ev("^ZZ_C08_Diff$", "diff report in txt, md, dot: 2 workloads, side 1 with one CIDR or a pair of CIDRs, side 2 with no policy, another CIDR (the block moved) or the pair, symbolic port range per side "
                           "(the solver covers equal and different connection texts); second run with the documents and the rule peers of both inputs reversed and the map schedule free at <=1 site",
                           "K>=2 deviating map sites; csv/json of the diff; larger inputs", models=30, mapsched=1, native_repeat=200),
-                 thorough=ev("^ZZ_C08_Diff$", "the diff report as quick with <=2 simultaneously deviating map sites", "K>=3 deviating sites", models=100, mapsched=2, native_repeat=200)),
+                 thorough=ev("^ZZ_C08_Diff$", "the diff report as quick (<=1 deviating map site; two simultaneously deviating sites did not finish in 20 minutes)", "K>=2 deviating sites for the diff report", models=100, mapsched=1, native_repeat=200)),
             dict(pkg=CONNLIST, harness="harness/connlist", shared="harness/shared",
                  thorough=ev("^ZZ_C08_Exposure$", "the exposure report as quick (<=1 deviating map site)", "K>=2 deviating sites for the exposure report", models=100, mapsched=1, native_repeat=200)),
         ],
